@@ -111,8 +111,9 @@ def make_spec(o, variant=1, seed=0):
     if o["relation"] == "iv":
         spec["relations"].append({"source": "s2", "target": "s3", "parameter": 0.7, "interval": [1, 3]})
     elif o["relation"] == "two":  # two relations whose intervals follow one another along the axis
+        # (both live on the labels of one megacomplex, so that they meet in every dataset that carries it)
         spec["relations"].append({"source": "s2", "target": "s3", "parameter": 0.7, "interval": [1, 2]})
-        spec["relations"].append({"source": "s2", "target": "s1", "parameter": 0.4, "interval": [3, 5]})
+        spec["relations"].append({"source": "s3", "target": "s2", "parameter": 0.4, "interval": [3, 5]})
     elif o["relation"] == "all":
         spec["relations"].append({"source": "s2", "target": "s3", "parameter": 0.7, "interval": None})
     if o["penalty"] == "yes":
